@@ -419,19 +419,33 @@ def r3(ctx):
     ctx.covered("column arms of get_field_value checked against the column -> accessor table", n,
                 distinct_keys=sorted(arms), sample={"Uid": sorted(arm_names(arms["Uid"]["body"]))[:8]})
     ctx.floor(n, 60, "column arms with an accessor row", GFV)
-    # the digest functions use their own algorithm
-    want = {"util::get_sha1_file_hash": "sha1::Sha1::new", "util::get_sha256_file_hash": "sha2::Sha256::new",
-            "util::get_sha512_file_hash": "sha2::Sha512::new", "util::get_sha3_512_file_hash": "sha3::Sha3_512::new"}
-    for fn, ctor in want.items():
+    # the digest functions use their own algorithm: the hasher is identified by its resolved *type* (the return type of the
+    # constructor call; for a helper generic in the hasher, the type argument the digest function instantiates it with)
+    want = {"util::get_sha1_file_hash": ("sha1::Sha1Core", "SHA-1"), "util::get_sha256_file_hash": ("sha2::OidSha256", "SHA-256"),
+            "util::get_sha512_file_hash": ("sha2::OidSha512", "SHA-512"), "util::get_sha3_512_file_hash": ("sha3::Sha3_512Core", "SHA3-512")}
+    import re as _re
+    for fn, (marker, algo) in want.items():
         h = ctx.anchor_hir(fn)
-        txts = [x.get("txt") for x in walk_exprs(h) if x["k"] == "Path" and x.get("txt") and x["txt"].endswith("::new")
-                and x["txt"] != "String::new"]
-        fmts = [t for t, _ in fmt_templates(h)]
-        ok = txts == [ctor] and any(c["k"] == "Call" and str(c.get("callee", "")).endswith("io::copy::copy") or
-                                    (c["k"] == "Call" and "io::copy" in str(c.get("callee", ""))) for c in walk_exprs(h))
+        made = [str(c.get("ty", "")) for c in walk_exprs(h) if c["k"] in ("Call", "MCall") and not c.get("exp") and
+                (str(c.get("callee", "")).endswith(("Digest::new", "Default::default", "::new")) and
+                 ("CoreWrapper<" in str(c.get("ty", "")) or _re.fullmatch(r"[A-Z][A-Za-z0-9]*", str(c.get("ty", "")))))]
+        tys = []
+        for t_ in made:
+            if "::" in t_:
+                tys.append(t_)
+                continue
+            # a type parameter of an inlined generic helper: the arguments the digest function's own calls instantiate
+            for c in walk_exprs(ctx.prog.raw_hir(fn)):
+                ft = str((c.get("f") or {}).get("ty", "")) if c["k"] == "Call" else ""
+                m_ = _re.search(r"\{[A-Za-z0-9_:]+::<(.*)>\}$", ft)
+                if m_ and "CoreWrapper<" in m_.group(1):
+                    tys.append(m_.group(1))
+        copies = any(c["k"] == "Call" and "io::copy" in str(c.get("callee", "")) for c in walk_exprs(h))
+        ok = len(tys) == 1 and marker in tys[0] and copies
         ctx.obligation(ok)
         if not ok:
-            ctx.violation("digest/%s" % short(fn, 1), ctx.where(fn), "%s hashes with %s, expected %s over the whole file (io::copy)" % (short(fn, 1), txts, ctor))
+            ctx.violation("digest/%s" % short(fn, 1), ctx.where(fn), "%s must hash the whole file (io::copy) with %s; its hasher type is %s%s" %
+                          (short(fn, 1), algo, [t_[:90] for t_ in tys] or "not found", "" if copies else ", and the file is not copied into it"))
     ctx.covered("digest functions -> hasher type", 4, distinct_keys=list(want))
     # content columns read what the path leads to (open follows links, like sha1sum / wc / file): the open of a content
     # reader is not conditioned on the directory entry's own type (DirEntry::file_type and lstat do not follow links)
